@@ -13,13 +13,13 @@
    parent, ...) adds the delta to every entry whose path is a prefix of the start path.
    The counters of every level are kept AS THE CODE KEEPS THEM; nothing is recomputed.
 
-   Faithful to the code as it is, including
-     - DeltaUpdateVolumes decrementing for a deleted volume whether or not it is registered,
-       with the remote/read-only flags of the MESSAGE (always false for short messages);
-     - UpdateEcShards applying the running totals newShardCount-deletedShardCount once per
-       registered EC volume;
-     - AdjustMaxVolumeCounts re-using one delta object for all disk types of a heartbeat.
-   Go map iteration orders that matter are explicit order oracles (TopoPlace.permute). *)
+   Faithful to the code as it is AFTER the three repairs of data_node.go / data_node_ec.go:
+     - DeltaUpdateVolumes skips a deleted volume that is not registered on the disk and takes
+       the remote/read-only flags from the REGISTERED VolumeInfo;
+     - UpdateEcShards counts new/deleted shards per registered EC volume;
+     - AdjustMaxVolumeCounts builds one delta object per disk type.
+   Still as written: UpdateEcShards keys reported and registered EC volumes by id only.
+   Go map iteration orders are explicit order oracles (TopoPlace.permute). *)
 From Coq Require Import String List ZArith NArith Bool Arith.
 From SW Require Import model.TopoPlace.
 Import ListNotations.
@@ -155,8 +155,7 @@ Definition add_or_update_volume (st : state) (n : path) (v : vinfo) : state :=
       upd st2 q (fun i => set_vols (put_vol v (i_vols i)) i)
   end.
 
-(* the unconditional part shared by UpdateVolumes and DeltaUpdateVolumes:
-   delete(disk.volumes, vid); delta -1; UpAdjustDiskUsageDelta *)
+(* delete(disk.volumes, vid); delta -1 with the flags of v; UpAdjustDiskUsageDelta *)
 Definition delete_volume (st : state) (n : path) (v : vinfo) : state :=
   let st1 := get_or_create_disk st n (v_disk v) in
   let q := n ++ [v_disk v] in
@@ -173,9 +172,22 @@ Definition update_volumes (st : state) (n : path) (actual : list vinfo) : state 
       else delete_volume s n v) existing st in
   fold_left (fun s v => add_or_update_volume s n v) actual st1.
 
+(* one deleted volume of DeltaUpdateVolumes: oldV, found := disk.volumes[v.Id]; if !found continue;
+   the delta uses oldV.IsRemote() / oldV.ReadOnly and the disk type of the message *)
+Definition delta_delete_volume (st : state) (n : path) (v : vinfo) : state :=
+  let st1 := get_or_create_disk st n (v_disk v) in
+  let q := n ++ [v_disk v] in
+  match find_vol (v_id v) (i_vols (info st1 q)) with
+  | None => st1
+  | Some oldV =>
+      up_adjust (upd st1 q (fun i => set_vols (remove_vol (v_id v) (i_vols i)) i)) q
+                (vol_delta (-1) {| v_id := v_id v; v_disk := v_disk v;
+                                   v_remote := v_remote oldV; v_ro := v_ro oldV |})
+  end.
+
 (* DataNode.DeltaUpdateVolumes (incremental heartbeat) *)
 Definition delta_update_volumes (st : state) (n : path) (news dels : list vinfo) : state :=
-  let st1 := fold_left (fun s v => delete_volume s n v) dels st in
+  let st1 := fold_left (fun s v => delta_delete_volume s n v) dels st in
   fold_left (fun s v => add_or_update_volume s n v) news st1.
 
 (* storage.NewVolumeInfoFromShort: no remote storage name, ReadOnly false *)
@@ -184,20 +196,19 @@ Definition of_short (m : vshort) : vinfo :=
   {| v_id := fst m; v_disk := snd m; v_remote := false; v_ro := false |}.
 
 (* ---------- DataNode.AdjustMaxVolumeCounts ---------- *)
-(* [maxs]: the map in iteration order; ONE deltaDiskUsages object for the whole loop *)
+(* [maxs]: the map in iteration order; a fresh deltaDiskUsages object per disk type *)
 Definition adjust_max (st : state) (n : path) (maxs : list (string * Z)) : state :=
-  fst (fold_left (fun (sd : state * usages) (km : string * Z) =>
-      let '(s, delta) := sd in
+  fold_left (fun (s : state) (km : string * Z) =>
       let '(raw, m) := km in
-      if m =? 0 then sd                                         (* "may have set the max to zero" *)
+      if m =? 0 then s                                          (* "may have set the max to zero" *)
       else
         let dt := to_dt raw in
         let cur := maxVolumeCount (uget (i_usage (info s n)) dt) in
-        if cur =? m then sd
+        if cur =? m then s
         else
           let s1 := get_or_create_disk s n dt in                (* dn.getOrCreateDisk(dt.String()) *)
-          let delta' := uset_max delta dt (m - cur) in
-          (up_adjust s1 (n ++ [dt]) delta', delta')) maxs (st, [])).
+          let delta := uset_max [] dt (m - cur) in              (* newDiskUsages(); getOrCreateDisk(dt) *)
+          up_adjust s1 (n ++ [dt]) delta) maxs st.
 
 (* ---------- EC shards ---------- *)
 Fixpoint popcount_pos (p : positive) : Z :=
@@ -238,10 +249,12 @@ Definition do_update_ec_shards (st : state) (n : path) (actual : list ecinfo) : 
 (* DataNode.UpdateEcShards (full EC heartbeat); [order]: iteration order of GetEcShards() *)
 Definition update_ec_shards (order : list nat) (st : state) (n : path) (actual : list ecinfo) : state :=
   let existing := permute order (node_ecs st n) in
-  let '(st1, _, _, changed1) :=
-    fold_left (fun (acc : state * Z * Z * bool) (e : ecinfo) =>
-        let '(s, newCount, delCount, changed) := acc in
+  let '(st1, changed1) :=
+    fold_left (fun (acc : state * bool) (e : ecinfo) =>
+        let '(s, changed) := acc in
         let s1 := get_or_create_disk s n (e_disk e) in
+        let newCount := 0 in                                     (* var newShardCount, deletedShardCount int *)
+        let delCount := 0 in                                     (* declared inside the loop body *)
         let '(newCount', delCount', changed') :=
           match find_ec_last (e_id e) actual with
           | None => (newCount, delCount + popcount (e_bits e), true)
@@ -252,9 +265,9 @@ Definition update_ec_shards (order : list nat) (st : state) (n : path) (actual :
                (if 0 <? dn then delCount + dn else delCount),
                changed || (0 <? an) || (0 <? dn))
           end in
-        (* deltaDiskUsage.ecShardCount = newShardCount - deletedShardCount  (running totals) *)
-        (up_adjust s1 (n ++ [e_disk e]) (ec_delta (e_disk e) (newCount' - delCount')),
-         newCount', delCount', changed')) existing (st, 0, 0, false) in
+        (* deltaDiskUsage.ecShardCount = newShardCount - deletedShardCount  (of this volume) *)
+        (up_adjust s1 (n ++ [e_disk e]) (ec_delta (e_disk e) (newCount' - delCount')), changed'))
+      existing (st, false) in
   let registered := node_ecs st n in                     (* dn.hasEcShards reads the maps, unchanged so far *)
   let '(st2, changed2) :=
     fold_left (fun (acc : state * bool) (a : ecinfo) =>
@@ -455,32 +468,8 @@ Definition exact_b (st : state) (r : ref_state) : bool :=
   let ts := types_of st r in
   forallb (fun e => forallb (exact_at st r (fst e)) ts) st.
 
-(* ---------- decidable triggers of the known findings ---------- *)
-Definition registered_at (st : state) (n : path) (m : vshort) : option vinfo :=
-  find_vol (fst m) (i_vols (info st (n ++ [snd m]))).
-
-Definition vshort_eqb (a b : vshort) : bool := N.eqb (fst a) (fst b) && String.eqb (snd a) (snd b).
-
-(* k = 0: an incremental delete names a volume that is not registered on that disk
-          (or names it twice) *)
-Definition trig_stale_delete (st : state) (n : path) (dels : list vshort) : bool :=
-  negb (nodupb vshort_eqb dels) ||
-  existsb (fun m => match registered_at st n m with None => true | Some _ => false end) dels.
-
-(* k = 3: an incremental delete of a volume registered as remote *)
-Definition trig_remote_delete (st : state) (n : path) (dels : list vshort) : bool :=
-  existsb (fun m => match registered_at st n m with Some v => v_remote v | None => false end) dels.
-
-(* k = 1: a full EC heartbeat while >= 2 EC volumes are registered and one of them changed *)
-Definition ec_changed (actual : list ecinfo) (e : ecinfo) : bool :=
-  match find_ec_last (e_id e) actual with
-  | None => true
-  | Some a => negb (N.eqb (e_bits a) (e_bits e))
-  end.
-Definition trig_ec_cumulative (st : state) (n : path) (actual : list ecinfo) : bool :=
-  Nat.leb 2 (length (node_ecs st n)) && existsb (ec_changed actual) (node_ecs st n).
-
-(* k = 4: an EC volume id listed twice in one full heartbeat, registered on two disks of the
+(* ---------- decidable trigger of the known finding ---------- *)
+(* k = 0: an EC volume id listed twice in one full heartbeat, registered on two disks of the
           server, or reported on another disk than the one it is registered on *)
 Definition trig_ec_irregular (st : state) (n : path) (actual : list ecinfo) : bool :=
   negb (nodupb N.eqb (map e_id actual)) ||
@@ -488,28 +477,13 @@ Definition trig_ec_irregular (st : state) (n : path) (actual : list ecinfo) : bo
   existsb (fun e => existsb (fun a => N.eqb (e_id a) (e_id e) && negb (String.eqb (e_disk a) (e_disk e))) actual)
           (node_ecs st n).
 
-(* k = 2: a heartbeat changes the max volume count of >= 2 disk types *)
-Definition max_effective (st : state) (n : path) (km : string * Z) : bool :=
-  negb (snd km =? 0) && negb (maxVolumeCount (uget (i_usage (info st n)) (to_dt (fst km))) =? snd km).
-Definition trig_max_shared (st : state) (n : path) (maxs : list (string * Z)) : bool :=
-  Nat.leb 2 (length (filter (max_effective st n) maxs)).
-
 Definition trigger (st : state) (o : op) : option N :=
   let n := op_node o in
   match o with
-  | Join _ _ _ _ => None
-  | _ =>
-    if negb (present st n && Nat.eqb (length n) 3) then None
-    else match o with
-         | IncVol _ _ dels =>
-             if trig_stale_delete st n dels then Some 0%N
-             else if trig_remote_delete st n dels then Some 3%N else None
-         | FullEc _ actual =>
-             if trig_ec_irregular st n actual then Some 4%N
-             else if trig_ec_cumulative st n actual then Some 1%N else None
-         | AdjustMax _ maxs => if trig_max_shared st n maxs then Some 2%N else None
-         | _ => None
-         end
+  | FullEc _ actual =>
+      if negb (present st n && Nat.eqb (length n) 3) then None
+      else if trig_ec_irregular st n actual then Some 0%N else None
+  | _ => None
   end.
 
 (* input well-formedness (assumption, not a finding): MaxVolumeCounts is a Go map, so its keys
